@@ -331,7 +331,16 @@ func flatOf(ps []pt, l geom.Layout) []float64 {
 	for i, p := range ps {
 		out = append(out, math.Ldexp(val(p[0]), curExp), math.Ldexp(val(p[1]), curExp))
 		for d := 2; d < s; d++ {
-			out = append(out, float64(i*3+d)*1e7)
+			// (a Z or M is finite, not a number, or infinite in turn: centroids, areas and
+			// directions are matters of x and y)
+			switch (i + d) % 5 {
+			case 0:
+				out = append(out, math.NaN())
+			case 1:
+				out = append(out, math.Inf(1-2*(i%2)))
+			default:
+				out = append(out, float64(i*3+d)*1e7)
+			}
 		}
 	}
 	return out
